@@ -28,6 +28,7 @@ type c15Config struct {
 	Value   string `json:"panic_value"` // string | error | runtime | struct | abort
 	Style   string `json:"registration"` // use | route | group
 	Env     string `json:"env"`
+	BuiltIn string `json:"env_while_building,omitempty"` // when set, the stack is built in this environment and Env is set afterwards
 }
 
 func (c c15Config) marker() string {
@@ -230,11 +231,19 @@ type c15Case struct {
 }
 
 func c15Judge(c c15Config, seq string) (bad, kind string) {
+	build := func() *c15World {
+		if c.BuiltIn != "" {
+			flamego.SetEnv(flamego.EnvType(c.BuiltIn))
+			defer flamego.SetEnv(flamego.EnvType(c.Env))
+		}
+		return c15Build(c)
+	}
 	flamego.SetEnv(flamego.EnvType(c.Env))
-	w := c15Build(c)
+	w := build()
+	flamego.SetEnv(flamego.EnvType(c.Env))
 	var fresh c15Resp
 	if strings.Contains(seq, "N") {
-		fresh = c15Build(c).serve("/n")
+		fresh = build().serve("/n")
 		if fresh.escaped != nil {
 			return "", "" // the normal route itself cannot be served: configuration not applicable
 		}
@@ -334,6 +343,39 @@ func c15Run(r *core.Run) {
 				}
 			}
 		})
+	}
+	// the environment is process-global, so configurations that are BUILT in one environment and SERVE
+	// in another run one at a time
+	{
+		l := core.NewLocal()
+		other := map[string]string{"development": "production", "production": "development", "test": "development"}
+		for _, env := range []string{"development", "production", "test"} {
+			for ci := 1; ci < len(cfgs); ci += 3 {
+				if ci%64 == 1 && r.Expired() {
+					break
+				}
+				c := cfgs[ci]
+				c.Env, c.BuiltIn = env, other[env]
+				l.States++
+				for _, sq := range []string{"P", "PN"} {
+					if strings.Contains(sq, "N") && !c.hasNormalRoute() {
+						continue
+					}
+					l.Evals++
+					l.Transitions += int64(len(sq))
+					l.Traces++
+					l.NonTrivial++
+					bad, kind := c15Judge(c, sq)
+					if bad != "" {
+						l.Class("mismatch")
+						l.Violate(kind+"/built-in-"+c.BuiltIn+"/serving-in-"+env, bad+fmt.Sprintf(" [config %+v sequence %s]", c, sq), c15Case{c, sq})
+						continue
+					}
+					l.Class("contained:env-switched-after-setup:" + env)
+				}
+			}
+		}
+		r.Merge(l)
 	}
 	flamego.SetEnv(flamego.EnvTypeDev)
 }
